@@ -772,3 +772,15 @@ where
 pub fn verif_get_locale_from_path<L: Locale>(path: &str, base_path: &str) -> Option<L> {
     get_locale_from_path(path, base_path)
 }
+
+/// Verification hook: `localize_path` with a fresh `PathBuilder`, returning the built path.
+#[cfg(feature = "verif_hooks")]
+pub fn verif_localize_path(
+    path: &str,
+    old_locale_segments: &[Vec<PathSegment>],
+    new_locale_segments: &[Vec<PathSegment>],
+) -> Option<String> {
+    let mut path_builder = PathBuilder::default();
+    localize_path(path, old_locale_segments, new_locale_segments, &mut path_builder)?;
+    Some(path_builder.build())
+}
